@@ -143,7 +143,12 @@ pub fn f1600_ro(st: &mut [u64; 25]) {
                 out = RO_OUT[j];
                 hit = true;
             }
+            // no truncated collision: a fresh output differs from every earlier one in its
+            // first 16 bytes (what digests / keys / MACs expose) *and* in the last capacity
+            // lane (never overwritten or exposed, so two states cannot re-converge after
+            // the rate part is overwritten by a key)
             kani::assume(fresh[0] != RO_OUT[j][0] || fresh[1] != RO_OUT[j][1]);
+            kani::assume(fresh[24] != RO_OUT[j][24]);
             j += 1;
         }
         if hit {
@@ -209,6 +214,9 @@ pub fn le_bytes(st: &[u64; 25], i: usize) -> u8 {
 // ---------------------------------------------------------------------------
 
 pub static mut OS_DRAWS: usize = 0x5EED_0000_0000_0007;
+/// number of permutation calls / Fp::random calls seen when the first OS word was drawn
+pub static mut OS_AT_RO_N: usize = 0x5EED_0000_0000_00b1;
+pub static mut OS_AT_FP_CALLS: usize = 0x5EED_0000_0000_00b2;
 pub static mut OS_LAST: [u64; 3] = [0; 3];
 pub static mut OS_K: usize = 0x5EED_0000_0000_0008;
 
@@ -229,6 +237,10 @@ pub fn osrng_next_u64(_r: &mut rand::rngs::OsRng) -> u64 {
 pub fn osrng_next_u64_nz(_r: &mut rand::rngs::OsRng) -> u64 {
     let v: u64 = kani::any();
     unsafe {
+        if OS_K == 0 {
+            OS_AT_RO_N = RO_N;
+            OS_AT_FP_CALLS = FP_RANDOM_CALLS;
+        }
         if OS_K % 3 == 0 {
             kani::assume(v != 0);
         }
@@ -514,5 +526,35 @@ where
         Err("Not enough shares to recover original secret")
     } else {
         star_sharks::interpolate(&values[0..this.0 as usize])
+    }
+}
+
+/// `star_sharks::interpolate` as an arbitrary function: any `Ok(24 bytes)` or `Err`
+/// (fault-model harnesses: the claim must hold whatever key interpolation of mixed,
+/// foreign or altered points yields)
+pub fn interpolate_any(_shares: &[star_sharks::Share]) -> Result<Vec<u8>, &'static str> {
+    if kani::any() {
+        let k: [u8; 24] = kani::any();
+        Ok(k.to_vec())
+    } else {
+        Err("interpolation failed")
+    }
+}
+
+pub fn out_byte(k: usize, i: usize) -> u8 {
+    unsafe { le_bytes(&RO_OUT[k], i) }
+}
+
+/// `Sharks::recover` as an arbitrary function (fault-model harness `any_key`)
+pub fn sharks_recover_any_key<'a, T>(_this: &star_sharks::Sharks, _shares: T) -> Result<Vec<u8>, &'static str>
+where
+    T: IntoIterator<Item = &'a star_sharks::Share>,
+    T::IntoIter: Iterator<Item = &'a star_sharks::Share>,
+{
+    if kani::any() {
+        let k: [u8; 24] = kani::any();
+        Ok(k.to_vec())
+    } else {
+        Err("not enough shares")
     }
 }
